@@ -6,7 +6,11 @@ import (
 	"reflect"
 	"unsafe"
 
+	dragonboat "github.com/lni/dragonboat/v4"
+	"github.com/lni/dragonboat/v4/internal/rsm"
 	"github.com/lni/dragonboat/v4/logger"
+	"github.com/lni/dragonboat/v4/verifsim/choice"
+	"github.com/lni/dragonboat/v4/verifsim/runner"
 	"github.com/lni/goutils/random"
 )
 
@@ -14,7 +18,7 @@ import (
 // default logger does.
 type nullLogger struct{}
 
-func (nullLogger) SetLevel(logger.LogLevel)                  {}
+func (nullLogger) SetLevel(logger.LogLevel)                    {}
 func (nullLogger) Debugf(format string, args ...interface{})   {}
 func (nullLogger) Infof(format string, args ...interface{})    {}
 func (nullLogger) Warningf(format string, args ...interface{}) {}
@@ -45,6 +49,27 @@ func (s sinkLogger) Panicf(format string, args ...interface{}) {
 
 func init() {
 	logger.SetLoggerFactory(func(pkg string) logger.ILogger { return sinkLogger{pkg: pkg} })
+	runner.PreRun = append(runner.PreRun, ResetProcessNondeterminism)
+}
+
+// ResetProcessNondeterminism makes the process wide sources of randomness and
+// wall clock time that end up in the data of the code under test a function of
+// the run's aux seed (every scenario, also the component simulators):
+// goutils' LockGuardedRand (election jitter, ReadIndex contexts), the seeds of
+// the request key generators (the keys decide the encoded size of entries and
+// so where log files roll and where a torn write ends) and the informational
+// time stamp in snapshot headers (it decides the header bytes and crc).
+func ResetProcessNondeterminism(aux uint64) {
+	SetProcessRand(&auxRand{r: choice.NewSplitMix(aux)})
+	// every generator gets a seed of its own (as with the default pid + clock
+	// seed): a restarted replica must not hand out the keys of its previous
+	// incarnation again, entries of which may still be waiting to be applied
+	var created uint64
+	dragonboat.VerifKeySeed = func(shardID uint64, replicaID uint64, shard uint64) int64 {
+		created++
+		return int64(choice.Mix(aux^0x6b657973, shardID<<20^replicaID, shard, created) >> 1)
+	}
+	rsm.VerifHeaderTime = func() uint64 { return 1700000000000000000 }
 }
 
 // SetProcessRand replaces the source behind goutils' process wide
